@@ -364,7 +364,7 @@ def cases(tier):
             cs.append(algebra_case(op, "Circle", "Interval", 1, 2, dep=True))
             cs.append(algebra_case(op, "Interval", "Interval", 2, 2, dep=True, grid_a=True))
         if not quick:
-            cs.append(algebra_case(op, "Parallelogram", "Interval" if op != "concat" else "Parallelogram", 3, 2))
+            cs.append(algebra_case(op, "Parallelogram", "Interval" if op != "concat" else "Parallelogram", 3, 3 if op == "append" else 2))
     for k in (0, 2):
         cs.append(data_case(k, False))
         cs.append(data_case(k, True))
